@@ -140,12 +140,12 @@ prop("C12",
 
 prop("C11",
      rule="(1) HTTP: rapid draws (asset bundled/generated incl. text and thumbnail sets, Timeline-Time or -Number, start, tsbd, ato, optional "
-          "periods, patch ttl 1..600 s) and t1 < t2 with t2-t1 from 1 ms (same piece), one segment, a few segments, a loop wrap, around the "
+          "periods, optional timeoffset_, optional stop_ between the two instants (MPD turning static), patch ttl 1..600 s) and t1 < t2 with t2-t1 from 1 ms (same piece), one segment, a few segments, a loop wrap, around the "
           "ttl and beyond it; the PatchLocation advertised by MPD(t1) is requested at t2: 425 iff publishTime unchanged, 410 beyond ttl(+10 s), "
           "otherwise the patch (originalPublishTime/publishTime/mpdId checked) is applied with an independent RFC 5261 applier and the result "
           "compared canonically with MPD(t2). (2) library: MPDDiff on generated id-carrying MPD-like trees and an edit script (S appended / "
           "dropped at the start / repeat changed / inserted in the middle, attributes changed/added/removed, periods appended/dropped, "
-          "adaptation sets and representations added/removed, descriptor values changed): old+patch == new; panics are violations, "
+          "adaptation sets and representations added/removed, descriptor values changed, elements without id (PatchLocation, UTCTiming) removed / added / changing their schemeIdUri): old+patch == new; panics are violations, "
           "rejections by the diff are counted. Non-trivial = a patch with >= 2 operations or one that both adds and removes.",
      quick=dict(shards=2, timeout=400), thorough=dict(shards=16, timeout=1500, pct=400), fuzz=dict(target="FuzzC11Trees", seconds=150, workers=16), assumptions=COMMON)
 
